@@ -23,7 +23,9 @@ RULE = ('magnitude-differential: C01 generators (random, constructed quotient ti
         '(47 evaluators over simple / approval / ranked / score / pairwise votes) on random profiles, outcome at k in {2, 3, 7, 10^6, 10^25+7} (score '
         'family k <= 1000: one list element per voter) equals the outcome at k = 1, refusals included. near-tie: pairs (v, v+1) at v in '
         '{10^3, 2^53, 10^30} and equal totals in different representations (int / Fraction / Decimal) at the cut of plurality, highest averages '
-        'and largest remainder. exact-types: no float in PureProportionality seats, split approvals, exact means, Gregory transfer tallies. '
+        'and largest remainder. int-vs-fraction: weights K*w+e (K in {2^52+1, 2^52+2, 2^53, 2^53+1, 10^16+1, 10^30+1}, e in -1..2; a third of the cases '
+        'with two or three equally weighted ballot types so that majorities hinge on single votes) given once as int and once as Fraction to every '
+        'non-score evaluator: identical outcomes. exact-types: no float in PureProportionality seats, split approvals, exact means, Gregory transfer tallies. '
         'non-trivial = result contains a tie, or k > 2^53; distinct by case hash')
 PARTIAL = ['scale invariance of Schulze / minimax / ranked pairs / Kemeny / largest remainder / STV / PAV / SPAV / positional / Bucklin / score rules: '
            'metamorphic relation evaluated on the implementation per explored case (C11_scale_full_statement), not proved',
@@ -109,6 +111,45 @@ def scale_metamorphic(ctx, stream, count, rng):
             ctx.report(stream, case, str(sc[1:]), str(base[1:]), '%s: %s' % (e['name'], why))
         elif len(ctx.samples) < 3 and tie and k > 2 ** 53:
             ctx.samples.append(dict(stream=stream, case=case, impl=str(sc[1]), model='same as unscaled: ' + str(base[1])))
+    ctx.streams[stream] = dict(cases=n, deviations=bad)
+
+
+# ------------------------------------------------------------------ int vs Fraction representation at near-tie magnitudes
+NEARK = [2 ** 52 + 1, 2 ** 52 + 2, 2 ** 53, 2 ** 53 + 1, 10 ** 16 + 1, 10 ** 30 + 1]
+
+
+def type_metamorphic(ctx, stream, count, rng):
+    """weights K*w + e (e in -1..2) with K beyond 2^52: the same numbers given as int and as Fraction must give the same
+    outcome (true division of ints would round, Fractions stay exact), and no float may appear in the result"""
+    reg = evalreg.registry()
+    names = [n for n, e in reg.items() if e['vtype'] != 'score']
+    bad = n = 0
+    for i in range(count):
+        e = reg[rng.choice(names)]
+        focus = i % 3 == 0        # few ballot types with equal base weight: majorities decided by single votes
+        prof = evalreg.gen_profile(rng, e['vtype'], shared=(e['needs'] != 'noshared'), small=(focus or e['needs'] == 'small'))
+        if focus and e['vtype'] in ('ranked', 'approval'):
+            prof = [[b, 1] for b, _ in prof[:rng.randint(2, 3)]]
+        K = rng.choice(NEARK)
+        prof2 = [[key, jq(max(q(w) * K + rng.choice([-1, 0, 0, 1, 2]), 0))] for key, w in prof]
+        cands = evalreg.candidates_of(e['vtype'], prof2)
+        seats = rng.randint(1, max(1, len(cands)))
+        py = evalreg.to_python(e['vtype'], prof2)
+        pf = {k_: Fraction(v) for k_, v in py.items()}
+        a = common.call_impl(lambda: evalreg.canon_result(e, evalreg.run(e, py, seats), cnum), 10)
+        b = common.call_impl(lambda: evalreg.canon_result(e, evalreg.run(e, pf, seats), cnum), 10)
+        ctx.evaluations += 1
+        ctx.dist['stream:' + stream] += 1
+        n += 1
+        case = dict(kind='int-vs-fraction', evaluator=e['name'], profile=prof2, n=seats)
+        ctx.nontrivial.add(common.case_hash(case))
+        if (a[0], a[1]) != (b[0], b[1]):
+            if a[0] == 'err' and a[1] == common.E['TIMEOUT'] or b[0] == 'err' and b[1] == common.E['TIMEOUT']:
+                continue
+            bad += 1
+            ctx.checker_false += 1
+            ctx.report(stream, case, str(a[1:]), str(b[1:]),
+                       '%s: integer and Fraction vote counts of the same value give different outcomes (rounding): %s vs %s' % (e['name'], a[1:], b[1:]))
     ctx.streams[stream] = dict(cases=n, deviations=bad)
 
 
@@ -208,9 +249,10 @@ def exact_type_checks(ctx, stream, count, rng):
             prof = [rng.randint(0, 10 ** 18) for _ in range(rng.randint(1, 6))]
             fn = lambda: util.exact_mean(prof) if hasattr(util, 'exact_mean') else 0     # noqa
         else:
-            prof = evalreg.gen_profile(rng, 'ranked', shared=False)
+            prof = evalreg.gen_profile(rng, 'ranked', shared=True)
+            qf = rng.choice(['droop', 'hare'])
             def fn():     # noqa
-                d = seq.TransferableVoteDistributor(quota_function='droop')
+                d = seq.TransferableVoteDistributor(quota_function=qf)
                 votes = evalreg.to_python('ranked', prof, scale=scale)
                 out = []
                 for i in range(1, 4):
@@ -262,7 +304,17 @@ def corpus():
 
 
 def replay_case(ctx, c, stream):
-    if c.get('kind') == 'scale':
+    if c.get('kind') == 'int-vs-fraction':
+        e = evalreg.registry()[c['evaluator']]
+        py = evalreg.to_python(e['vtype'], c['profile'])
+        pf = {k_: Fraction(v) for k_, v in py.items()}
+        a = common.call_impl(lambda: evalreg.canon_result(e, evalreg.run(e, py, c['n']), cnum), 10)
+        b = common.call_impl(lambda: evalreg.canon_result(e, evalreg.run(e, pf, c['n']), cnum), 10)
+        ctx.evaluations += 1
+        if (a[0], a[1]) != (b[0], b[1]):
+            ctx.checker_false += 1
+            ctx.report(stream, c, str(a[1:]), str(b[1:]), '%s: integer and Fraction vote counts give different outcomes' % c['evaluator'])
+    elif c.get('kind') == 'scale':
         e = evalreg.registry()[c['evaluator']]
         base = evalreg.outcome(e, c['profile'], c['n'])
         sc = evalreg.outcome(e, c['profile'], c['n'], scale=c['k'])
@@ -291,6 +343,7 @@ def explore(ctx, widen=1):
     ctx.differential('magnitude-get_n_best', gen_gnb(rng, ctx.n(1500, 20000) * widen), gnb_model_line, gnb_impl, canon=gnb_canon,
                      nontrivial=lambda c: q(c['k']) > 2 ** 53)
     scale_metamorphic(ctx, 'scale-metamorphic', ctx.n(2500, 40000) * widen, rng)
+    type_metamorphic(ctx, 'int-vs-fraction', ctx.n(2500, 40000) * widen, rng)
     near_tie_checks(ctx, 'near-tie', ctx.n(150, 2000), rng)
     exact_type_checks(ctx, 'exact-types', ctx.n(300, 4000), rng)
     score_magnitude_check(ctx, 'score-magnitude')
